@@ -70,11 +70,11 @@ type bconn struct {
 	local, remote net.Addr
 }
 
-func (c *bconn) Read(p []byte) (int, error)  { return c.r.read(p) }
-func (c *bconn) Write(p []byte) (int, error) { return c.w.write(p) }
-func (c *bconn) Close() error                { c.r.close(); c.w.close(); return nil }
-func (c *bconn) LocalAddr() net.Addr         { return c.local }
-func (c *bconn) RemoteAddr() net.Addr        { return c.remote }
+func (c *bconn) Read(p []byte) (int, error)       { return c.r.read(p) }
+func (c *bconn) Write(p []byte) (int, error)      { return c.w.write(p) }
+func (c *bconn) Close() error                     { c.r.close(); c.w.close(); return nil }
+func (c *bconn) LocalAddr() net.Addr              { return c.local }
+func (c *bconn) RemoteAddr() net.Addr             { return c.remote }
 func (c *bconn) SetDeadline(time.Time) error      { return nil }
 func (c *bconn) SetReadDeadline(time.Time) error  { return nil }
 func (c *bconn) SetWriteDeadline(time.Time) error { return nil }
